@@ -15,6 +15,7 @@ def roots (validActive : Bool) : Prog → Nat
   | .event => 0
   | .span cs => (if validActive then 0 else 1) + rootsList true cs
   | .spanThread cs => (if validActive then 0 else 1) + rootsList true cs
+  | .spanAsync cs => (if validActive then 0 else 1) + rootsList true cs
   | .push tp cs => rootsList tp.valid cs
   | .carry cs => rootsList validActive cs
 def rootsList (validActive : Bool) : List Prog → Nat
@@ -27,6 +28,7 @@ def ExtOnly : Prog → Prop
   | .event => True
   | .span cs => ExtOnlyList cs
   | .spanThread cs => ExtOnlyList cs
+  | .spanAsync cs => ExtOnlyList cs
   | .push tp cs => (∀ k, tp.spanId ≠ some (.gen k)) ∧ ExtOnlyList cs
   | .carry cs => ExtOnlyList cs
 def ExtOnlyList : List Prog → Prop
@@ -72,19 +74,29 @@ theorem openSpec_facts (c : Cfg) (e : Env) :
 theorem enterSt_self_none (st : Option Active) : enterSt st none = st := by
   cases st <;> rfl
 
+theorem run_main_span (c : Cfg) (cs : List Prog) (e : Env) (hb : Below e.st e.rng)
+    (ih : ∀ e' : Env, Below e'.st e'.rng →
+      e'.rng ≤ (runList c cs e').rng ∧ (runList c cs e').calls = e'.calls + rootsList (validOf e'.st) cs) :
+    e.rng ≤ (run c (.span cs) e).rng ∧
+    (run c (.span cs) e).calls = e.calls + ((if validOf e.st then 0 else 1) + rootsList true cs) := by
+  simp only [run, openSpan_eq_spec c e hb]
+  obtain ⟨a', hslot, hval, hsid, hrng, hcalls, hst⟩ := openSpec_facts c e
+  simp only [hslot, enterSt, completeSpan_rng, completeSpan_calls]
+  have hb' : Below (some a') (openSpec c e).2.2.2.rng := by
+    intro a k h1 h2; cases h1; rw [hsid] at h2; cases h2; exact Nat.le_refl _
+  have := ih { (openSpec c e).2.2.2 with st := some a' } hb'
+  simp only [validOf_some, hval] at this
+  omega
+
 theorem run_main (c : Cfg) : ∀ (p : Prog) (e : Env), ExtOnly p → Below e.st e.rng →
     e.rng ≤ (run c p e).rng ∧ (run c p e).calls = e.calls + roots (validOf e.st) p
   | .event, e, _, _ => by simp [run, observeEvent, roots]
   | .span cs, e, hx, hb => by
-    simp only [run, openSpan_eq_spec c e hb]
-    obtain ⟨a', hslot, hval, hsid, hrng, hcalls, hst⟩ := openSpec_facts c e
-    simp only [hslot, enterSt, completeSpan_rng, completeSpan_calls]
-    have hb' : Below (some a') (openSpec c e).2.2.2.rng := by
-      intro a k h1 h2; cases h1; rw [hsid] at h2; cases h2; exact Nat.le_refl _
-    have := run_list c cs { (openSpec c e).2.2.2 with st := some a' } (by simpa [ExtOnly] using hx) hb'
-    simp only [validOf_some, hval] at this
     simp only [roots]
-    omega
+    exact run_main_span c cs e hb (fun e' hb' => run_list c cs e' (by simpa [ExtOnly] using hx) hb')
+  | .spanAsync cs, e, hx, hb => by
+    rw [run_spanAsync_eq]; simp only [roots]
+    exact run_main_span c cs e hb (fun e' hb' => run_list c cs e' (by simpa [ExtOnly] using hx) hb')
   | .spanThread cs, e, hx, hb => by
     simp only [run, openSpan_eq_spec c e hb]
     obtain ⟨a', hslot, hval, hsid, hrng, hcalls, hst⟩ := openSpec_facts c e
@@ -139,6 +151,7 @@ def NoPush : Prog → Prop
   | .event => True
   | .span cs => NoPushList cs
   | .spanThread cs => NoPushList cs
+  | .spanAsync cs => NoPushList cs
   | .push _ _ => False
   | .carry cs => NoPushList cs
 def NoPushList : List Prog → Prop
@@ -150,6 +163,7 @@ theorem extOnly_of_noPush : ∀ (p : Prog), NoPush p → ExtOnly p
   | .event, _ => trivial
   | .span cs, h => by simp only [ExtOnly]; exact list cs (by simpa [NoPush] using h)
   | .spanThread cs, h => by simp only [ExtOnly]; exact list cs (by simpa [NoPush] using h)
+  | .spanAsync cs, h => by simp only [ExtOnly]; exact list cs (by simpa [NoPush] using h)
   | .push _ _, h => by simp [NoPush] at h
   | .carry cs, h => by simp only [ExtOnly]; exact list cs (by simpa [NoPush] using h)
   where list : ∀ (ps : List Prog), NoPushList ps → ExtOnlyList ps
@@ -197,6 +211,25 @@ theorem valid_child (a : Active) (sid : Traceparent.Id) (f : Nat) (hv : a.tp.val
   simp only [TP.valid, Bool.and_eq_true, Option.isSome_some, and_true] at hv ⊢
   exact hv.1
 
+theorem unsampled_span (c : Cfg) (cs : List Prog) (e : Env) (a : Active) (hb : Below e.st e.rng)
+    (hst : e.st = some a) (hv : a.tp.valid = true) (hs : a.tp.sampled = false)
+    (ih : ∀ (e' : Env) (a' : Active), Below e'.st e'.rng → e'.st = some a' → a'.tp.valid = true →
+      a'.tp.sampled = false → ∀ o ∈ (runList c cs e').out, o ∈ e'.out ∨ Silent o) :
+    ∀ o ∈ (run c (.span cs) e).out, o ∈ e.out ∨ Silent o := by
+  intro o ho
+  simp only [run, openSpan_eq_spec c e hb] at ho
+  obtain ⟨child, seen, sid, n, hopen, hsid, hn'⟩ := openSpec_unsampled c e a hst hv hs
+  simp only [hopen, enterSt, completeSpan, Bool.false_eq_true, if_false] at ho
+  have hb' : Below (some ⟨⟨a.tp.traceId, some sid, 0⟩, a.tp.spanId⟩) n := by
+    intro a' k h1 h2; cases h1; subst hsid; cases h2; exact Nat.le_refl _
+  have := ih _ _ hb' rfl (valid_child a sid 0 hv) (by simp [TP.sampled]) o ho
+  rcases this with h | h
+  · simp only [List.mem_cons] at h
+    rcases h with rfl | h
+    · right; simp [Silent]
+    · exact Or.inl h
+  · exact Or.inr h
+
 /-- **Unsampled traces are silent.** Inside an unsampled trace (a valid, unsampled traceparent is active) no
     span is enabled, no span event is emitted, the sampler is not consulted, the current traceparent reports
     unsampled, no ids are visible, and the sampled-trace filter rejects every event — for every subtree,
@@ -210,21 +243,13 @@ theorem unsampled_silent (c : Cfg) : ∀ (p : Prog) (e : Env) (a : Active), NoPu
     rcases ho with rfl | ho
     · right; simp [Silent, current, ambientIds, hs]
     · exact Or.inl ho
-  | .span cs, e, a, hn, hb, hst, hv, hs => by
-    intro o ho
-    simp only [run, openSpan_eq_spec c e hb] at ho
-    obtain ⟨child, seen, sid, n, hopen, hsid, hn'⟩ := openSpec_unsampled c e a hst hv hs
-    simp only [hopen, enterSt, completeSpan, Bool.false_eq_true, if_false] at ho
-    have hb' : Below (some ⟨⟨a.tp.traceId, some sid, 0⟩, a.tp.spanId⟩) n := by
-      intro a' k h1 h2; cases h1; subst hsid; cases h2; exact Nat.le_refl _
-    have := unsampled_list c cs _ _ (by simpa [NoPush] using hn) hb' rfl
-      (valid_child a sid 0 hv) (by simp [TP.sampled]) o ho
-    rcases this with h | h
-    · simp only [List.mem_cons] at h
-      rcases h with rfl | h
-      · right; simp [Silent]
-      · exact Or.inl h
-    · exact Or.inr h
+  | .span cs, e, a, hn, hb, hst, hv, hs =>
+    unsampled_span c cs e a hb hst hv hs
+      (fun e' a' hb' hst' hv' hs' => unsampled_list c cs e' a' (by simpa [NoPush] using hn) hb' hst' hv' hs')
+  | .spanAsync cs, e, a, hn, hb, hst, hv, hs => by
+    rw [run_spanAsync_eq]
+    exact unsampled_span c cs e a hb hst hv hs
+      (fun e' a' hb' hst' hv' hs' => unsampled_list c cs e' a' (by simpa [NoPush] using hn) hb' hst' hv' hs')
   | .spanThread cs, e, a, hn, hb, hst, hv, hs => by
     intro o ho
     simp only [run, openSpan_eq_spec c e hb] at ho
@@ -261,6 +286,35 @@ theorem unsampled_silent (c : Cfg) : ∀ (p : Prog) (e : Env) (a : Active), NoPu
     · exact unsampled_silent c p e a hn.1 hb hst hv hs o h
     · exact Or.inr h
 
+theorem sampled_span (c : Cfg) (cs : List Prog) (e : Env) (a : Active) (hb : Below e.st e.rng)
+    (hst : e.st = some a) (hv : a.tp.valid = true) (hs : a.tp.sampled = true)
+    (ih : ∀ (e' : Env) (a' : Active), Below e'.st e'.rng → e'.st = some a' → a'.tp.valid = true →
+      a'.tp.sampled = true → ∀ o ∈ (runList c cs e').out, o ∈ e'.out ∨ InTrace a'.tp.traceId o) :
+    ∀ o ∈ (run c (.span cs) e).out, o ∈ e.out ∨ InTrace a.tp.traceId o := by
+  intro o ho
+  simp only [run, openSpan_eq_spec c e hb, openSpec_sampled c e a hst hv hs, enterSt, completeSpan,
+    if_true, List.mem_cons] at ho
+  have hv' : (⟨a.tp.traceId, some (.gen (e.rng + 1)), a.tp.flags % 256⟩ : TP).valid = true :=
+    valid_child a _ _ hv
+  have hs' : (⟨a.tp.traceId, some (.gen (e.rng + 1)), a.tp.flags % 256⟩ : TP).sampled = true := by
+    simp only [TP.sampled] at hs ⊢
+    have : a.tp.flags % 2 = 1 := by simpa using hs
+    have : a.tp.flags % 256 % 2 = 1 := by omega
+    simpa using this
+  have hb' : Below (some ⟨⟨a.tp.traceId, some (.gen (e.rng + 1)), a.tp.flags % 256⟩, a.tp.spanId⟩) (e.rng + 1) := by
+    intro a' k h1 h2; cases h1; cases h2; exact Nat.le_refl _
+  rcases ho with rfl | ho
+  · right
+    rw [restore.restoreList c cs]
+    simp [InTrace, ambientIds, hs']
+  · have := ih _ _ hb' rfl hv' hs' o ho
+    rcases this with h | h
+    · simp only [List.mem_cons] at h
+      rcases h with rfl | h
+      · right; simp [InTrace]
+      · exact Or.inl h
+    · exact Or.inr h
+
 /-- **Sampled traces: everything is emitted and carries the trace.** Inside a sampled trace every span is
     enabled and emitted, shares the trace id, the sampler is not consulted again, every event passes the
     sampled-trace filter, and the current traceparent is sampled, in the trace, with the span id that is also
@@ -274,30 +328,13 @@ theorem sampled_in_trace (c : Cfg) : ∀ (p : Prog) (e : Env) (a : Active), NoPu
     rcases ho with rfl | ho
     · right; simp [InTrace, current, ambientIds, hs]
     · exact Or.inl ho
-  | .span cs, e, a, hn, hb, hst, hv, hs => by
-    intro o ho
-    simp only [run, openSpan_eq_spec c e hb, openSpec_sampled c e a hst hv hs, enterSt, completeSpan,
-      if_true, List.mem_cons] at ho
-    have hv' : (⟨a.tp.traceId, some (.gen (e.rng + 1)), a.tp.flags % 256⟩ : TP).valid = true :=
-      valid_child a _ _ hv
-    have hs' : (⟨a.tp.traceId, some (.gen (e.rng + 1)), a.tp.flags % 256⟩ : TP).sampled = true := by
-      simp only [TP.sampled] at hs ⊢
-      have : a.tp.flags % 2 = 1 := by simpa using hs
-      have : a.tp.flags % 256 % 2 = 1 := by omega
-      simpa using this
-    have hb' : Below (some ⟨⟨a.tp.traceId, some (.gen (e.rng + 1)), a.tp.flags % 256⟩, a.tp.spanId⟩) (e.rng + 1) := by
-      intro a' k h1 h2; cases h1; cases h2; exact Nat.le_refl _
-    rcases ho with rfl | ho
-    · right
-      rw [restore.restoreList c cs]
-      simp [InTrace, ambientIds, hs']
-    · have := sampled_list c cs _ _ (by simpa [NoPush] using hn) hb' rfl hv' hs' o ho
-      rcases this with h | h
-      · simp only [List.mem_cons] at h
-        rcases h with rfl | h
-        · right; simp [InTrace]
-        · exact Or.inl h
-      · exact Or.inr h
+  | .span cs, e, a, hn, hb, hst, hv, hs =>
+    sampled_span c cs e a hb hst hv hs
+      (fun e' a' hb' hst' hv' hs' => sampled_list c cs e' a' (by simpa [NoPush] using hn) hb' hst' hv' hs')
+  | .spanAsync cs, e, a, hn, hb, hst, hv, hs => by
+    rw [run_spanAsync_eq]
+    exact sampled_span c cs e a hb hst hv hs
+      (fun e' a' hb' hst' hv' hs' => sampled_list c cs e' a' (by simpa [NoPush] using hn) hb' hst' hv' hs')
   | .spanThread cs, e, a, hn, hb, hst, hv, hs => by
     intro o ho
     simp only [run, openSpan_eq_spec c e hb, openSpec_sampled c e a hst hv hs, enterSt, completeSpan,
@@ -387,6 +424,12 @@ theorem pushed_header_parents_spans (c : Cfg) (tp : TP) (cs : List Prog) (e : En
   have hone : ∀ (p : Prog) (e' : Env), runList c [p] e' = run c p e' := fun p e' => by simp [runList]
   rw [hpush, hone, h]
   simp [pushedActive]
+
+/-- **Async spans behave like sync spans.** A span whose body is a future polled once per segment (the frame is
+    entered and exited around every poll, swapping its slot with the thread's traceparent each time) makes
+    exactly the observations of the span whose body runs inside one entered frame. -/
+theorem async_polls_transparent (c : Cfg) (cs : List Prog) (e : Env) :
+    run c (.spanAsync cs) e = run c (.span cs) e := run_spanAsync_eq c cs e
 
 /-- **Defect (before the fix)**: a frame captured with `Frame::current` was inactive, so on a fresh thread the
     trace was lost: no active traceparent there. -/
